@@ -642,9 +642,22 @@ fn server_cookie_of(g: &Got) -> Option<Vec<u8>> {
 }
 
 impl C16Wire {
+    fn second_listener(first: u16) -> u16 {
+        if first < 65000 {
+            first + 1
+        } else {
+            first - 1
+        }
+    }
+
     fn start_server(&self) -> Result<(DnsServer, u16), String> {
         let p6 = crate::netns::free_port(IpAddr::V6(Ipv6Addr::UNSPECIFIED));
-        let listeners = vec![SocketAddr::new(IpAddr::V6(Ipv6Addr::UNSPECIFIED), p6)];
+        // a second listener, one port up (see `second_listener`): a source's allowance is the
+        // source's, whichever of the server's sockets it talks to
+        let listeners = vec![
+            SocketAddr::new(IpAddr::V6(Ipv6Addr::UNSPECIFIED), p6),
+            SocketAddr::new(IpAddr::V4(Ipv4Addr::new(127, 0, 0, 53)), Self::second_listener(p6)),
+        ];
         let routes = "dns-routes:\n  - domain-suffixes: [\"\"]\n    type: forward\n    dns-servers: [127.0.1.1]\n";
         let conf = dns_config(&listeners, routes, None);
         let probe = SocketAddr::new(IpAddr::V6(Ipv6Addr::LOCALHOST), p6);
@@ -746,15 +759,34 @@ impl WireProp for C16Wire {
                         return out;
                     }
                     out.class("second-burst-still-limited");
+                    // ... and asks the server's other listening socket
+                    let other = SocketAddr::new(IpAddr::V4(Ipv4Addr::new(127, 0, 0, 53)), Self::second_listener(port));
+                    let there = Self::blast(blaster, other, 200, None);
+                    if there > 2 {
+                        out.fail(
+                            "C16:allowance-per-listening-socket",
+                            format!("{} had used up its allowance at {} ({} REFUSED for {}), and at once got {} more REFUSED for a burst of 200 sent to {}", blaster, dst_for(&blaster), answered, n, there, other),
+                        );
+                        return out;
+                    }
+                    out.class("other-listener-still-limited");
                 }
                 let small = IpAddr::V4(Ipv4Addr::new(127, 78, 0, 1 + (c.blast % 200) as u8));
                 let answered_small = Self::blast(small, dst_for(&small), 200.min(n), None);
-                if answered > answered_small + 2 && n >= 200 {
-                    out.fail(
-                        "C16:volume-grows-with-arrivals",
-                        format!("{} queries -> {} REFUSED, {} queries -> {} REFUSED in the same time", n, answered, 200.min(n), answered_small),
-                    );
-                    return out;
+                // The volume of REFUSED does not grow with what arrives: a source draws on two
+                // buckets of 1000 tokens and one REFUSED costs at least 200, so ten per burst
+                // (one more for what is refilled meanwhile), however large the burst.  The two
+                // sources are not compared with each other: the 256 buckets are shared between
+                // all sources, and one that shares a bucket with an earlier source of this case
+                // legitimately gets less.
+                for (who, got, sent) in [(blaster, answered, n), (small, answered_small, 200.min(n))] {
+                    if got > 11 {
+                        out.fail(
+                            "C16:burst-over-budget",
+                            format!("{} refused queries in one burst from {} got {} REFUSED responses; burst + rate x time allows 11", sent, who, got),
+                        );
+                        return out;
+                    }
                 }
                 out.class("blast-bounded");
                 // (3) cookies
